@@ -4,6 +4,7 @@ extern "C" {
   int  __vp_file_open(const char* path, unsigned long len, int mode) noexcept;
   long __vp_file_read(int h, char* dst, long n) noexcept;
   long __vp_file_write(int h, const char* src, long n) noexcept;
+  long __vp_file_write_some(int h, const char* src, long n) noexcept;    // as many leading bytes as the device takes
   long __vp_file_seek(int h, long off, int whence) noexcept;
   long __vp_file_tell(int h) noexcept;
   int  __vp_file_close(int h) noexcept;
